@@ -49,24 +49,19 @@ Inductive case :=
 Definition store_fn (store : list (list (list (list row)))) (p k : nat) : list (list row) :=
   nth k (nth p store []) [].
 
-(* every combination of repaired defects is an accepted implementation (a maintainer may take any subset of the
-   fixes); the code as it is comes first, so on the unchanged tree one evaluation per case suffices *)
-Definition bools : list bool := [false; true].
-Definition all_fx : list fixes :=
-  fx_all false :: fx_all true ::
-  flat_map (fun a => flat_map (fun b => flat_map (fun c => flat_map (fun d => flat_map (fun e =>
-    map (fun f => mkFx a b c d e f) bools) bools) bools) bools) bools) bools.
-Definition limit_fx : list fixes :=
-  flat_map (fun c => map (fun d => mkFx false false c d false false) bools) bools.
+(* The implementation the correspondence accepts is the CURRENT code: F-C25a, c, d, e, f are repaired in /repo
+   (fix: commits), F-C25b (index out of range in appendRowValues) is not. A regression of a repaired defect is
+   therefore a model mismatch. The pre-fix variants stay in the model for the [_refuted] theorems. *)
+Definition fx_now : fixes := mkFx true false true true true true.
 
 Definition ok (c : case) : bool :=
   match c with
   | CTable whats lods by_ by_s from to fe num desired store obs =>
       forallb (fun l1 => forallb (fun l2 => forallb (forallb wf_row) l2) l1) store &&
-      existsb (fun fx => res_match fe (table fx whats lods by_ by_s from to fe num desired (store_fn store)) obs) all_fx
+      res_match fe (table fx_now whats lods by_ by_s from to fe num desired (store_fn store)) obs
   | CLimit groups from to fe limit obs =>
-      existsb (fun fx => let r := limit_queries fx from to fe groups limit in
-                         list_eqb row_eqb (fst r) (fst obs) && Bool.eqb (snd r) (snd obs)) limit_fx
+      let r := limit_queries fx_now from to fe groups limit in
+      list_eqb row_eqb (fst r) (fst obs) && Bool.eqb (snd r) (snd obs)
   | CWhat whats obs => list_eqb hw_eqb (handler_whats whats) obs
   end.
 
